@@ -155,6 +155,60 @@ theorem exit_implies_residual_bound (ev : Evaluator) (g : List Rat) (tol : Rat)
     · simp [Evaluator.nonflatResid, Evaluator.flatResid]; exact Or.inl ⟨e, he, rfl⟩
     · simp [Evaluator.nonflatResid, Evaluator.flatResid]; exact Or.inr ⟨e, he, rfl⟩
 
+theorem sumSq_nonneg (r : List Cell) (s : Rat) (h : sumSq r = some s) : 0 ≤ s := by
+  induction r generalizing s with
+  | nil => simp [sumSq] at h; subst h; exact le_refl _
+  | cons c rest ih =>
+    cases c with
+    | none => simp [sumSq] at h
+    | some x =>
+      simp only [sumSq] at h
+      cases hr : sumSq rest with
+      | none => rw [hr] at h; cases h
+      | some s' =>
+        rw [hr] at h; cases h
+        have := ih s' hr
+        nlinarith [mul_self_nonneg x]
+
+/-- **the acceptance test of the non-default solver `scipy_root` implies the sup-norm exit test**: `‖f‖₂ < tol`
+(with `tol ≥ 0`) gives `|fᵢ| < tol` for every entry, so everything proved from `exitTest` (residual bound per
+(equation, date), block recursion) also holds for blocks accepted by `scipy_root` -/
+theorem exitTest2_implies_exitTest (tol : Rat) (htol : 0 ≤ tol) (r : List Cell) (h : exitTest2 tol r = true) :
+    exitTest tol r = true := by
+  unfold exitTest2 at h
+  cases hs : sumSq r with
+  | none => rw [hs] at h; cases h
+  | some s =>
+    rw [hs] at h
+    have hlt : s < tol * tol := by simpa using h
+    clear h
+    unfold exitTest
+    rw [List.all_eq_true]
+    induction r generalizing s with
+    | nil => intro c hc; cases hc
+    | cons c rest ih =>
+      cases c with
+      | none => simp [sumSq] at hs
+      | some x =>
+        simp only [sumSq] at hs
+        cases hr : sumSq rest with
+        | none => rw [hr] at hs; cases hs
+        | some s' =>
+          rw [hr] at hs; cases hs
+          have hs' := sumSq_nonneg rest s' hr
+          intro c hc
+          rcases List.mem_cons.mp hc with rfl | hc
+          · have hx : x ^ 2 < tol ^ 2 := by nlinarith [mul_self_nonneg x]
+            have := abs_lt_of_sq_lt_sq' hx htol
+            simpa using this
+          · exact ih s' hr (by nlinarith [mul_self_nonneg x]) c hc
+
+/-- the residual bound for a block accepted by `scipy_root` -/
+theorem scipy_exit_implies_residual_bound (ev : Evaluator) (g : List Rat) (tol : Rat) (htol : 0 ≤ tol)
+    (h : exitTest2 tol (ev.resid g) = true) :
+    ∀ e ∈ ev.eqs, ∀ d ∈ evalDates ev.flat, ∃ x, e.eval (ev.array g) d = some x ∧ -tol < x ∧ x < tol :=
+  exit_implies_residual_bound ev g tol (exitTest2_implies_exitTest tol htol _ h)
+
 /-! ## 4. Frame conditions and plan resolution -/
 
 theorem updMany_of_not_mem (kvs : List (Nat × Cell)) (f : Nat → Cell) (q : Nat)
